@@ -1,4 +1,5 @@
 import PgFdr.Proofs.C14
+import PgFdr.Props.C18
 
 /-!
 # C14 — equal-score ties are broken without bias
@@ -490,5 +491,85 @@ example :
     (∀ x ∈ [tA, dA, tB].filter (·.hasEvidence), x ≠ tA → x ≠ dA →
       ∀ k ∈ (strategy .picked).marks x, k ∉ (strategy .picked).key tA ∧ k ∉ (strategy .picked).key dA) := by
   decide +kernel
+
+/-! ## The table the command line WRITES carries the drawn order
+
+The theorems above are about the ranking `do_competition` returns.  What a user of `python -m picked_group_fdr` sees is
+the file `writers.finalize_output` writes.  In the glue model (`Model/Cli.lean`: `runMethod` → `renderTable`, tied to
+the real `main(argv)` by `harness/cli_model.py` and to the written bytes by the exhibit of `harness/props/C14.py`)
+the writer is order-preserving: the data lines are the reported rows in order (`Cli.renderTable_eq`), the reported rows
+are a subsequence of the final ranking in ranking order, each carrying the score and the q-value of its position
+(`C01.pipeline_report_alignment`), and inside the final ranking equally scoring groups stand in the order the run's
+recorded second shuffle gave them (`ties_follow_shuffle`).  Nothing between the competition and the file looks at
+identifiers: a writer that re-sorts equal scores (alphabetically, say: `REV__…` ahead of `sp|…`) contradicts
+`cli_written_rows_in_ranking_order`. -/
+open PgFdr.Cli in
+/-- "their relative order in the ranking … is drawn … at random … in particular targets are not systematically ranked
+    ahead of equally scoring decoys or vice versa", for the WRITTEN table: written rows = ranking rows, in order.  For
+    every table of a completed command-line run the records handed to `csv.writer` are the header line followed by the
+    reported rows in order, and there are strictly increasing ranking positions `idx` such that the `k`-th data line is
+    the rendering of a row made from the group at position `idx[k]` of the final ranking, with that position's score
+    and that position's q-value (the q-values are the ones computed along the ranking, `C01.pipeline_qvals_spec`). -/
+theorem cli_written_rows_in_ranking_order (inp : CliInput) (ts : List CliTable) (h : cliRun inp = .ok ts) :
+    ∃ ann : C19.Dict, ∀ t ∈ ts,
+      t.records = tableHeader :: t.run.rows.map (fun d => (cliRow ann d).toList) ∧
+      ∃ idx : List Nat, idx.Pairwise (· < ·) ∧ idx.length = t.run.rows.length ∧
+        ∀ (k i : Nat), idx[k]? = some i →
+          ∃ (row : C06.RowData) (x : C02.Item),
+            t.records[k + 1]? = some (cliRow ann row).toList ∧ t.run.rows[k]? = some row ∧
+            t.run.final.ranking[i]? = some x ∧ row.score = x.score ∧
+            t.run.final.qvals[i]? = some row.qValue ∧ (∀ p ∈ row.proteins, p ∈ x.group) := by
+  obtain ⟨ann, u, -, hall⟩ := C18.cli_tables_satisfy_guarantees inp ts h
+  refine ⟨ann, ?_⟩
+  intro t ht
+  obtain ⟨i, m, cfg, pc, maps, r, -, -, -, -, -, -, -, -, hrun, htr, -, -, hrecs, -⟩ := hall t ht
+  subst htr
+  refine ⟨hrecs, ?_⟩
+  obtain ⟨idx, h1, h2, h3⟩ := C01.pipeline_report_alignment pc _ t.run hrun
+  refine ⟨idx, h1, h2, ?_⟩
+  intro k j hk
+  obtain ⟨row, x, hrow, hx, -, hs, hq, -, hmem, -⟩ := h3 k j hk
+  refine ⟨row, x, ?_, hrow, hx, hs, hq, hmem⟩
+  rw [hrecs]
+  simp [hrow]
+
+open PgFdr.Cli in
+/-- and inside that ranking the order of equal scores is the drawn one: for every table of a completed command-line
+    run (method at position `i` of `--methods`, its pipeline configuration `pc`) and every score `q`, the groups of
+    score `q` stand in the final ranking in exactly the order in which the run's recorded second shuffle of the final
+    competition left the survivors — whatever their identifiers, decoy flags or arrival positions.  With
+    `cli_written_rows_in_ranking_order` (strictly increasing positions) the written lines of one score follow that
+    order too. -/
+theorem cli_written_ties_follow_shuffle (inp : CliInput) (ts : List CliTable) (h : cliRun inp = .ok ts) :
+    ∀ t ∈ ts, ∃ (i : Nat) (pc : Pipeline.Config), inp.methods[i]? = some t.method ∧
+      ∀ q : Rat,
+        t.run.final.ranking.filter (fun x => decide (x.score = q)) =
+          (shuffle (keptFrom pc.mode []
+              (Pipeline.finalItems (pipelineInput inp t.pil (inp.recs.getD i default)) t.run)
+              (Pipeline.finalShuffle1 (pipelineInput inp t.pil (inp.recs.getD i default)) t.run))
+            (Pipeline.finalShuffle2 (pipelineInput inp t.pil (inp.recs.getD i default)) t.run)).filter
+            (fun x => decide (x.score = q)) := by
+  obtain ⟨ann, u, -, hall⟩ := C18.cli_tables_satisfy_guarantees inp ts h
+  intro t ht
+  obtain ⟨i, m, cfg, pc, maps, r, hname, -, -, -, -, -, -, -, hrun, htr, -, -, -, -⟩ := hall t ht
+  subst htr
+  refine ⟨i, pc, hname, ?_⟩
+  intro q
+  obtain ⟨hp, -⟩ := Pipeline.final_spec pc _ t.run hrun
+  rw [hp.ranking]
+  exact (ties_follow_shuffle pc.mode _ _ _ q false).1
+
+/-! Non-vacuity: the completed two-method command line of `Proofs/Cli.lean` (`demo_cli_run`) — both theorems apply to
+its two written tables (header + two data lines each). -/
+example : ∃ t1 t2, Cli.cliRun Cli.demoRun = .ok [t1, t2] ∧ t1.run.rows.length = 2 ∧ t2.run.rows.length = 2 := by
+  obtain ⟨t1, t2, h, -, -, -, -, -, -, -, h1, h2, -⟩ := Cli.demo_cli_run
+  refine ⟨t1, t2, h, ?_, ?_⟩
+  · have := (C18.cli_tables_satisfy_guarantees Cli.demoRun _ h)
+    obtain ⟨_, _, -, hall'⟩ := this
+    obtain ⟨_, _, _, _, _, r, -, -, -, -, -, -, -, -, -, htr, hrows, -, -, -⟩ := hall' t1 (by simp)
+    rw [htr, ← hrows, h1]; rfl
+  · obtain ⟨_, _, -, hall'⟩ := (C18.cli_tables_satisfy_guarantees Cli.demoRun _ h)
+    obtain ⟨_, _, _, _, _, r, -, -, -, -, -, -, -, -, -, htr, hrows, -, -, -⟩ := hall' t2 (by simp)
+    rw [htr, ← hrows, h2]; rfl
 
 end PgFdr.C14
